@@ -63,6 +63,14 @@ def findings():
     probe("pow_minus1_krylov_kwargs", "pow(A, -1, Lanczos()|Arnoldi()) builds CG(**alg.__dict__) / GMRES(**alg.__dict__): TypeError (unexpected keyword 'start_vector')", p_m1,
           "pow(PSD(Dense(diag(1,2))),-1,Lanczos()) @ ones(2)")
 
+    def p_m1e():
+        from cola.linalg import Eigh
+        A = cola.SelfAdjoint(ops.Dense(np.diag([1., -2.])))
+        y = np.asarray(pow(A, -1, Eigh()) @ np.ones(2))
+        return not np.allclose(y, [1, -.5]), y.tolist()
+    probe("pow_minus1_eigh_requires_psd", "pow(A, -1, Eigh()) translates Eigh into Cholesky: AssertionError for a SelfAdjoint operator that is not declared PSD "
+          "(Eigh itself only needs SelfAdjoint)", p_m1e, "pow(SelfAdjoint(Dense(diag(1,-2))),-1,Eigh()) @ ones(2)")
+
     def p_ident():
         y = np.asarray(pow(ops.Identity((2, 2), np.float64), 2).to_dense())
         return not np.allclose(y, np.eye(2)), y.tolist()
@@ -617,7 +625,7 @@ def run(ctx):
         umeta.append(dict(case=case_js, bad=bad, got=dict(FX=str(Y.tolist())[:300])))
 
     # ---------------- C. whole-operator dense and Krylov rules (every admissible algorithm), float tier; pow -1 = inverse; sqrt twice
-    nC = ctx.budget(150, 1300)
+    nC = ctx.budget(220, 1600)
     from cola.linalg.decompositions.lanczos import lanczos
     from cola.linalg.decompositions.arnoldi import arnoldi
     for _ in range(nC):
@@ -625,26 +633,60 @@ def run(ctx):
         cplx = rnd.random() < 0.3
         dt = "complex128" if cplx else "float64"
         n = rnd.randint(2, ctx.budget(5, 7))
-        cls = rnd.choice(["psd", "psd", "gen", "psd0"])
+        # spectrum classes: Hermitian declared PSD / declared SelfAdjoint only (Auto then takes the general Eig rule) / general
+        # diagonalisable; "_rep" = REPEATED eigenvalues (multiplicity 2-3) with eigenspaces in general position; "kronsq" = S (x) S
+        cls = rnd.choice(["psd", "psd", "gen", "psd0", "psd_rep", "sa", "sa_rep", "sa_rep", "gen_rep", "kronsq"])
         if cls == "psd0" and fn.domain != "any":
             cls = "psd"
-        alg = rnd.choice(["Auto", "none", "Eig", "Eigh", "Lanczos", "Lanczos", "Arnoldi", "Arnoldi"])
-        if alg in ("Eigh", "Lanczos") and cls == "gen":
-            cls = "psd"
+        if cls == "kronsq" and fn.name in ("pow", "sqrt", "isqrt"):
+            cls = "psd_rep"       # with an algorithm argument pow(Kronecker) is the factor-wise rule: covered by stream A
+        alg = rnd.choice(["Auto", "none", "Eig", "Eig", "Eigh", "Lanczos", "Lanczos", "Arnoldi", "Arnoldi"])
+        if alg in ("Eigh", "Lanczos") and cls.startswith("gen"):
+            cls = "sa_rep" if cls.endswith("rep") else "psd"
         if cls == "psd0" and alg in ("Lanczos", "Arnoldi") and "krylov_mask_kills_f0" in present and complex(fn.np(np.array([0.0]))[0]) != 0:
             bump(skipped, "krylov_mask_kills_f0")
             cls = "psd"
-        if cls in ("psd", "psd0"):
-            lam = np.array(sorted(L.separated(rnd, n, lo=0.3, gap=0.25, grow=1.3)))
-            if cls == "psd0":
-                lam[0] = 0.0
-            Q = L.rand_unitary(g, n, cplx)
-            M = (Q * lam) @ Q.conj().T
-            M = (M + M.conj().T) / 2
+        herm = not cls.startswith("gen")
+        if cls == "kronsq":
+            q = rnd.choice([2, 2, 3])
+            n = q * q
+            lam_s = np.array(sorted(L.separated(rnd, q, lo=0.5, gap=0.3, grow=1.3)))
+            Qs = L.rand_unitary(g, q, cplx)
+            Sq = (Qs * lam_s) @ Qs.conj().T
+            Sq = (Sq + Sq.conj().T) / 2
+            M = np.kron(Sq, Sq)
+            lam = np.kron(lam_s, lam_s)
         else:
-            lam = spectrum(rnd, n, fn.domain, cplx)
-            S = L.well_cond(g, n, cplx, 3.0)
-            M = S @ np.diag(lam) @ np.linalg.inv(S)
+            if cls.endswith("rep"):
+                n = max(n, 3)
+                nd = max(1, n - rnd.randint(1, 2))            # number of distinct eigenvalues
+                if herm:
+                    vals = np.array(L.separated(rnd, nd, lo=0.4, gap=0.3, grow=1.3))
+                    if cls == "sa_rep" and fn.domain == "any":
+                        vals = vals * np.array([rnd.choice([-1, 1]) for _ in range(nd)])
+                else:
+                    vals = spectrum(rnd, nd, fn.domain, cplx)
+                    for _ in range(50):
+                        if nd == 1 or min(abs(a - b) for i, a in enumerate(vals) for b in vals[i + 1:]) > 0.3:
+                            break
+                        vals = spectrum(rnd, nd, fn.domain, cplx)
+                lam = np.array(list(vals) + [vals[rnd.randrange(nd)] for _ in range(n - nd)])
+                rnd.shuffle(lam)
+            elif herm:
+                lam = np.array(sorted(L.separated(rnd, n, lo=0.3, gap=0.25, grow=1.3)))
+                if cls == "psd0":
+                    lam[0] = 0.0
+                if cls == "sa" and fn.domain == "any":
+                    lam = lam * np.array([rnd.choice([-1, 1]) for _ in range(n)])
+            else:
+                lam = spectrum(rnd, n, fn.domain, cplx)
+            if herm:
+                Q = L.rand_unitary(g, n, cplx)
+                M = (Q * lam) @ Q.conj().T
+                M = (M + M.conj().T) / 2
+            else:
+                S = L.well_cond(g, n, cplx, 3.0)
+                M = S @ np.diag(lam) @ np.linalg.inv(S)
         if not cplx:
             M = M.real
         M = M.astype(getattr(np, dt))
@@ -664,14 +706,24 @@ def run(ctx):
         if fn.name == "pow" and isint and kk == -1 and alg in ("Lanczos", "Arnoldi") and "pow_minus1_krylov_kwargs" in present:
             bump(skipped, "pow_minus1_krylov_kwargs")
             continue
-        A = ops.Dense(M)
-        if cls in ("psd", "psd0"):
-            A = cola.PSD(A)
+        if fn.name == "pow" and isint and kk == -1 and alg == "Eigh" and cls.startswith("sa") and "pow_minus1_eigh_requires_psd" in present:
+            bump(skipped, "pow_minus1_eigh_requires_psd")
+            continue
+        if cls == "kronsq":
+            Sd = Sq.astype(getattr(np, dt)) if cplx else Sq.real.astype(getattr(np, dt))
+            A = cola.PSD(ops.Kronecker(cola.PSD(ops.Dense(Sd)), cola.PSD(ops.Dense(Sd))))
+        else:
+            A = ops.Dense(M)
+            if cls.startswith("psd"):
+                A = cola.PSD(A)
+            elif cls.startswith("sa"):
+                A = cola.SelfAdjoint(A)
         k = rnd.choice([1, 2])
         X = (g.standard_normal((n, k)) + (1j * g.standard_normal((n, k)) if cplx else 0)).astype(getattr(np, dt))
         case_js = dict(stream="C", M=M.tolist() if not cplx else [[str(x) for x in r] for r in M], cls=cls, dt=dt, alg=algspec, cap=cap, **fn.js())
         evals += 1
         bump(hist, f"C:{fn.name}{'' if fn.alpha is None else fn.alpha}:{alg}" + (f":{cap}" if cap else ""))
+        bump(hist, "C:class:" + cls + ":" + alg)
         distinct.add(core.digest(case_js))
         try:
             F = fn.cola(A, make_alg(algspec))
@@ -739,7 +791,7 @@ def run(ctx):
             # dense rule at the root = a ULeaf: reuse the rational model
             rule = "Auto" if alg in ("Auto", "none") else alg
             orc = Oracles(fn, dt, rule, present)
-            u = dict(k="Leaf", M=M, psd=cls in ("psd", "psd0"))
+            u = dict(k="Leaf", M=M, psd=cls.startswith("psd") or cls == "kronsq")
             try:
                 term = ucoq(u, dt, orc, False)
             except Exception as e:
